@@ -156,7 +156,8 @@ def impl_job(kind, arg, form="nd"):
     if kind == "mlinspace":
         a, b, nums, order = arg
         rows = watch("mlinspace", lambda *t: mlinspace(*t, order=order), [(list(a), None), (list(b), None), (list(nums), None)]).tolist()
-        vobjs = [mk(a, form, np.float64, np.float32), mk(b, form, np.float64, np.float32), mk(nums, form)]
+        fab = "row2d" if form == "nd32" and any(float(np.float32(v)) != float(v) for v in list(a) + list(b)) else form
+        vobjs = [mk(a, fab, np.float64, np.float32), mk(b, fab, np.float64, np.float32), mk(nums, form)]
         rows2 = watch("mlinspace", lambda *t: mlinspace(*t, order=order), vobjs).tolist()
         if rows2 != rows:
             problems.append("mlinspace depends on the argument form %s" % form)
@@ -293,6 +294,12 @@ def run(ctx):
         b = [a[i] + (nums[i] - 1) * rng.choice([1, 2, 4]) if nums[i] > 1 else a[i] for i in range(d)]
         for order in "CF":
             ml_in.append((a, b, nums, order))
+    for _ in range(30 if thorough else 12):      # arbitrary binary64 endpoints (increasing and decreasing), n = 1 included
+        d = rng.randrange(1, 4)
+        nums = [rng.choice([1, 2, 3, 4, 6, 7]) for _ in range(d)]
+        a = [rng.uniform(-5, 5) for _ in range(d)]
+        b = [a[i] + rng.choice([-1, 1]) * rng.uniform(0.1, 3) for i in range(d)]
+        ml_in.append((a, b, nums, rng.choice("CF")))
     jobs += [("mlinspace", list(t)) for t in ml_in]
     ci_in = []
     for _ in range(400 if thorough else 150):
@@ -471,16 +478,44 @@ def run(ctx):
                         "fun c => let '(f, nodes, rows) := c in Zss_eqb (cartesian 0%Z f nodes) rows", cases, chunk=40)
     for i in bad:
         ctx.mismatch("C16.Model.cartesian vs _gridtools.cartesian", {"shape": meta[i][0], "order": meta[i][1]})
-    # mlinspace is cartesian of linspace nodes: check shape/order on dyadic data through the oracle only
+    # mlinspace = cartesian of linspace nodes.  Oracle: exact rational nodes a + j(b-a)/(n-1) (dyadic data: equality;
+    # arbitrary floats: 1e-12 relative, endpoints exact).  Correspondence: the float instance of the model bit-exactly
+    # on every case, the Q instance on the dyadic cases.
+    fcases, fmeta, qcases, qmeta = [], [], [], []
     for (a, b, nums, order), res in zip(ml_in, by_kind["mlinspace"]):
-        if bad_result(ctx, "mlinspace", {"a": a, "b": b, "nums": nums, "order": order}, res):
+        inp = {"a": a, "b": b, "nums": nums, "order": order}
+        if bad_result(ctx, "mlinspace", inp, res):
             continue
         d = len(nums)
-        nodes = [[a[i] + (b[i] - a[i]) * j / (nums[i] - 1) if nums[i] > 1 else a[i] for j in range(nums[i])] for i in range(d)]
+        rows = res[1]["rows"]
+        dyadic = all(float(v).is_integer() for v in list(a) + list(b))
+        nodes = [[frac(a[i]) + (frac(b[i]) - frac(a[i])) * j / (nums[i] - 1) if nums[i] > 1 else frac(a[i]) for j in range(nums[i])] for i in range(d)]
         exp = [list(t) for t in itertools.product(*nodes)] if order == "C" else [list(t[::-1]) for t in itertools.product(*nodes[::-1])]
-        ctx.case(("mlinspace", tuple(a), tuple(b), tuple(nums), order), nontrivial=True)
-        if res[1]["rows"] != exp:
-            ctx.fail("mlinspace", "mlinspace is not the product grid", {"a": a, "b": b, "nums": nums, "order": order}, res[1]["rows"][:8], exp[:8])
+        ctx.case(("mlinspace", tuple(a), tuple(b), tuple(nums), order), nontrivial=(len(exp) >= 2))
+        ctx.count("mlinspace:" + ("dyadic" if dyadic else "binary64"))
+        good = len(rows) == len(exp) and all(len(r) == d for r in rows)
+        if good and dyadic:
+            good = [[frac(v) for v in r] for r in rows] == exp
+        elif good:
+            good = all(abs(frac(v) - e) <= Fraction(1, 10**12) * (1 + abs(e)) for r, er in zip(rows, exp) for v, e in zip(r, er))
+            ends = [{float(a[i])} | ({float(b[i])} if nums[i] > 1 else set()) for i in range(d)]
+            good = good and all(ends[i] <= {r[i] for r in rows} for i in range(d))
+        if not good:
+            ctx.fail("mlinspace", "mlinspace is not the product grid of the linspace nodes", inp, rows[:8], [[float(v) for v in r] for r in exp[:8]])
+        fcases.append(tup(blit(order == "F"), flist(a), flist(b), zlist(nums), flist2(rows)))
+        fmeta.append(inp)
+        if dyadic:
+            qcases.append(tup(blit(order == "F"), qlist([frac(v) for v in a]), qlist([frac(v) for v in b]), zlist(nums), qlist2([[frac(v) for v in r] for r in rows])))
+            qmeta.append(inp)
+    IMP2 = "From QE Require Import C16.Model C16.Model2."
+    bad = ctx.coq_check("mlinspace_float", IMP2, "bool * list float * list float * list Z * list (list float)",
+                        "fun c => let '(f, a, b, nums, rows) := c in Fss_eqb (mlinspace f a b nums) rows", fcases, chunk=30)
+    for i in bad:
+        ctx.mismatch("C16.Model2.mlinspace (binary64 instance, bit-exact) vs _gridtools.mlinspace", fmeta[i])
+    bad = ctx.coq_check("mlinspace_Q", IMP2, "bool * list Q * list Q * list Z * list (list Q)",
+                        "fun c => let '(f, a, b, nums, rows) := c in Qss_eqb (mlinspace f a b nums) rows", qcases, chunk=30)
+    for i in bad:
+        ctx.mismatch("C16.Model2.mlinspace (Q instance) vs _gridtools.mlinspace on dyadic data", qmeta[i])
     # _cartesian_index directly: mixed-radix value (oracle: numpy's own ravel_multi_index, C order)
     cases, meta = [], []
     for (ind, nums), res in zip(ci_in, by_kind["cindex"]):
